@@ -9,6 +9,12 @@
     * `NoWrap c`: a thread sitting at the CAS of `allocate` read the head fewer than `2^W` pushes ago;
     * `Cap c`:    at most `2^W - 2` ids were minted (ids stay below ACTIVE_FLAG / FREE_LIST_TAIL).
   `ida_wrap_counterexample` shows NoWrap cannot be dropped (with Cap still satisfied).
+
+  Per-thread ids (`ThreadId`): a thread's id is `allocate()` at its first use and `deallocate(own id)`
+  in its thread-local destructor on `IdAllocator<uint16_t>`, i.e. the special case `W = 16`, every
+  model thread calling `alloc` at most once and `dealloc` on its own result; thread birth/death
+  orders are call histories of `Step`, so the theorems below apply verbatim (the harness mode
+  `threadid` checks the same statements on real thread creation and exit).
 -/
 import Babylon.IdAlloc.LemmasUse
 import Babylon.IdAlloc.Sched
@@ -207,6 +213,31 @@ theorem box_versions_increase (c : Cfg) (b : BState) (hr : BReach c b) :
 /-- the embedded allocator of a reachable box state satisfies the IdAllocator invariant (so slot ids
 held by different emplaced items are distinct: `dup = false`) -/
 theorem box_alloc_unique (c : Cfg) (b : BState) (hr : BReach c b) : b.al.dup = false := (breach_inv hr).1.al.nd
+
+/-- **The global no-wrap bound of the box theorems is necessary.**  With 2-bit versions (`W = 2`) slot 0
+is issued as `(0,0)`, taken, released and re-issued four more times; the fifth id is `(0,0)` again
+(free-list version 4 ≡ 0), so the id of the first round matches a second time: two successful
+takes are recorded for id `(0,0)`, the second one obtaining the item of the fifth emplace. -/
+def boxWrapSched : List BMove :=
+  bmEmplaceMint 1 10 ++ bmTake 2 0 0 ++ bmFinish 2 0 ++
+  bmEmplacePop 1 11 ++ bmTake 2 0 1 ++ bmFinish 2 0 ++
+  bmEmplacePop 1 12 ++ bmTake 2 0 2 ++ bmFinish 2 0 ++
+  bmEmplacePop 1 13 ++ bmTake 2 0 3 ++ bmFinish 2 0 ++
+  bmEmplacePop 1 14 ++                           -- issued as (0, 0) again
+  bmTake 3 0 0                                   -- a holder of the round-1 id takes the round-5 item
+
+theorem box_wrap_counterexample :
+    ∃ b, Reachable (· = BState.init ⟨2⟩) (fun a b => BStep ⟨2⟩ a b ∧ Cap ⟨2⟩ b.al) b ∧
+      b.won 0 0 = [14, 10] ∧ b.tres 3 = some (some 14) := by
+  have hrun : (brun ⟨2⟩ (fun b => decide (b.al.nv ≤ 2)) (BState.init ⟨2⟩) boxWrapSched).map
+      (fun b => decide (b.won 0 0 = [14, 10] ∧ b.tres 3 = some (some 14))) = some true := by decide
+  cases hs : brun ⟨2⟩ (fun b => decide (b.al.nv ≤ 2)) (BState.init ⟨2⟩) boxWrapSched with
+  | none => rw [hs] at hrun; simp at hrun
+  | some b =>
+    rw [hs] at hrun
+    refine ⟨b, ?_, by simpa using hrun⟩
+    exact brun_reachable (P := fun b => Cap ⟨2⟩ b.al) (fun b h => by simpa [Cap, Cfg.active] using h)
+      boxWrapSched _ _ (Reachable.base rfl) hs
 
 /-! Non-vacuity for the box: two threads race to take the id of one emplace, the loser fails, the
 winner releases, the slot is re-issued with a larger version, the stale id fails again. -/
